@@ -37,7 +37,7 @@ def HashKey.toggle (T : ZTable) (h : HashKey) (pc sq : Nat) : HashKey :=
 
 structure Position where
   side : Nat := 0
-  halfmove : Nat := 0          -- uint8_t _half_move_counter
+  halfmove : Nat := 0          -- uint16_t _half_move_counter (after the clock fix; was uint8_t)
   ply : Int := 1               -- int32_t _ply_counter
   board : List Nat := List.replicate 64 0
   castling : Nat := 0
@@ -143,7 +143,7 @@ def ofFen (T : ZTable) (s : String) : Position :=
   let full := (tk.getD 5 "0").toNat?.getD 0
   let ply : Int := 2 * (full : Int) - 1 + (if side = 1 then 1 else 0)
   let h := HashKey.init T board side castling ep
-  { side := side, halfmove := hm % 256, ply := ply, board := board, castling := castling, ep := ep,
+  { side := side, halfmove := hm % 65536, ply := ply, board := board, castling := castling, ep := ep,
     hash := h, history := [h.key] }
 
 def startFen : String := "rnbqkbnr/pppppppp/8/8/8/8/PPPPPPPP/RNBQKBNR w KQkq - 0 1"
@@ -191,7 +191,7 @@ def pushHistory (h : List Nat) (k : Nat) : List Nat :=
 
 /-- castling branch of do_move (position.cpp:447-466): clock, king and rook, rights, rights key, ep square -/
 def doMoveCastle (T : ZTable) (p : Position) (side m : Nat) : Position :=
-  let p := { p with halfmove := (p.halfmove + 1) % 256 }
+  let p := { p with halfmove := (p.halfmove + 1) % 65536 }
   let r := if side = 0 then 0 else 7
   let p := if moveCastling m = KING_CASTLING then
       movePiece T (movePiece T p (mkSquare r 4) (mkSquare r 6)) (mkSquare r 7) (mkSquare r 5)
@@ -245,9 +245,9 @@ def setEpAfter (T : ZTable) (p : Position) (side moved f t : Nat) : Position :=
 def preMove (T : ZTable) (p : Position) : Position :=
   { (changeSide T p) with ply := (changeSide T p).ply + 1, hash := { (changeSide T p).hash with epK := 0 } }
 
-/-- half-move clock of the non-castling branch: +1 (uint8) for a quiet non-pawn move, else reset -/
+/-- half-move clock of the non-castling branch: +1 (uint16) for a quiet non-pawn move, else reset -/
 def clockStep (q : Position) (m : Nat) : Position :=
-  if kindOf (q.at (moveFrom m)) ≠ PAWN ∧ kindOf (q.at (moveTo m)) = 0 then { q with halfmove := (q.halfmove + 1) % 256 }
+  if kindOf (q.at (moveFrom m)) ≠ PAWN ∧ kindOf (q.at (moveTo m)) = 0 then { q with halfmove := (q.halfmove + 1) % 65536 }
   else { q with halfmove := 0 }
 
 def withHistory (p : Position) : Position := { p with history := pushHistory p.history p.hash.key }
@@ -298,14 +298,14 @@ def undoMove (T : ZTable) (q : Position) (m mi : Nat) : Position :=
 /-- `Position::do_null_move` (does not touch the key history) -/
 def doNull (T : ZTable) (p0 : Position) : Position × Nat :=
   let p := changeSide T p0
-  let p := { p with ply := p.ply + 1, halfmove := (p.halfmove + 1) % 256 }
+  let p := { p with ply := p.ply + 1, halfmove := (p.halfmove + 1) % 65536 }
   let e := p.ep
   ({ p with ep := 64, hash := { p.hash with epK := 0 } }, mkMoveInfo 0 0 e false 0)
 
 /-- `Position::undo_null_move` -/
 def undoNull (T : ZTable) (p0 : Position) (mi : Nat) : Position :=
   let p := changeSide T p0
-  let p := { p with ply := p.ply - 1, halfmove := (p.halfmove + 255) % 256 }
+  let p := { p with ply := p.ply - 1, halfmove := (p.halfmove + 65535) % 65536 }
   let e := miLastEp mi
   { p with ep := e, hash := if e ≠ 64 then { p.hash with epK := T.ep (fileOf e) } else p.hash }
 
